@@ -9,6 +9,7 @@ import (
 	"fmt"
 	"io"
 	"runtime"
+	"strings"
 
 	fflate "github.com/intel/fastgo/compress/flate"
 	fgzip "github.com/intel/fastgo/compress/gzip"
@@ -360,6 +361,11 @@ func checkCompleteStream(cfg WCfg, b, want []byte) string {
 		return fmt.Sprintf("compress/%s cannot decode the emitted stream: %v (got %d of %d bytes)", cfg.Pkg, err, len(out), len(want))
 	}
 	if !bytes.Equal(out, want) {
+		if cfg.Dict != nil && len(cfg.Dict) > 0 && bytes.Equal(out, append(append([]byte{}, cfg.Dict...), want...)) {
+			// compress/flate's own NewWriterDict (to which fastgo delegates every dictionary Writer) writes the
+			// dictionary into the stream as data when the first block is stored: reproducible without fastgo
+			return fmt.Sprintf("dict-prepended: compress/%s decodes to the %d dictionary bytes followed by the %d data bytes", cfg.Pkg, len(cfg.Dict), len(want))
+		}
 		return fmt.Sprintf("compress/%s decodes to different data (%d bytes, want %d, first diff at %d)", cfg.Pkg, len(out), len(want), firstDiff(out, want))
 	}
 	raw, ok := stripContainer(cfg.Pkg, b, cfg.Dict)
@@ -420,4 +426,13 @@ func stdDecodeContainerPartial(cfg WCfg, b []byte) ([]byte, error) {
 		return readAllLimited(zr, nil, 0)
 	}
 	return nil, errors.New("bad pkg")
+}
+
+// keyFor gives violations caused by the dictionary-prepending behaviour of compress/flate's NewWriterDict
+// their own key, so that the known finding about it cannot hide any other round-trip failure.
+func keyFor(base string, cfg WCfg, msg string) string {
+	if strings.HasPrefix(msg, "dict-prepended") {
+		return "dict-prepended/" + cfg.Pkg
+	}
+	return base
 }
